@@ -35,6 +35,10 @@ type H struct {
 	// context of its own (Step.UseCtx) it cancels that context, so the
 	// handlers after it in subscription order are skipped for this publish.
 	Cancels bool `json:"cancels,omitempty"`
+	// Panics: the handler panics after it has recorded the call.  The bus
+	// contains the panic; a Once handler that ran - panicking or not - has
+	// fired and is retired.
+	Panics bool `json:"panics,omitempty"`
 }
 
 // Step of a sequential history.
@@ -88,6 +92,7 @@ type armed struct {
 	*calls
 	arm     func()
 	cancels bool
+	panics  bool
 }
 
 func (a *armed) hit(h, id int) {
@@ -100,6 +105,9 @@ func (a *armed) hit(h, id int) {
 	if a.arm != nil {
 		a.arm()
 	}
+	if a.panics {
+		panic(fmt.Sprintf("handler %d fails on event %d", h, id))
+	}
 }
 
 func (c *calls) hit(h, id int) {
@@ -111,7 +119,7 @@ func (c *calls) hit(h, id int) {
 }
 
 func subscribe(bus *eventbus.EventBus, src *busmodel.OptSource, h H, idx int, c0 *calls, arm ...func()) error {
-	c := &armed{calls: c0, cancels: h.Cancels && !h.Once && !h.Async}
+	c := &armed{calls: c0, cancels: h.Cancels && !h.Once && !h.Async, panics: h.Panics}
 	if len(arm) > 0 {
 		c.arm = arm[0]
 	}
